@@ -2,11 +2,13 @@
 # seedcheck2.sh <seed-id> [props...] : apply /tmp/seed/<id>/_seed/patch.diff inside that worktree and analyse it there (does not touch /repo)
 s="$1"; shift
 props="${*:-$s}"
+[ "$props" = all ] && props="C01 C02 C03 C04 C06 C07 C08 C09 C10 C11 C12 C13 C14 C15 C16 C17 C18"
 cd /tmp/seed/$s && git checkout -q -- . && git apply _seed/patch.diff || { echo "patch does not apply"; exit 2; }
 cd /verif
 for p in $props; do
-  out=$(./bin/txlint -prop $p -no-evidence -repo /tmp/seed/$s 2>&1); rc=$?
-  echo "$s: $p rc=$rc $(echo "$out" | grep -c '^VIOLATED\|^UNDECIDED') finding(s)"
-  echo "$out" | grep '^VIOLATED\|^UNDECIDED' | cut -c1-330 | head -5
+  ( out=$(./bin/txlint -prop $p -no-evidence -repo /tmp/seed/$s 2>&1); rc=$?
+  echo "$s: $p rc=$rc $(echo "$out" | grep -c '^VIOLATED\|^UNDECIDED') finding(s)
+$(echo "$out" | grep '^VIOLATED\|^UNDECIDED' | cut -c1-330 | head -5)" ) &
 done
+wait
 git -C /tmp/seed/$s checkout -q -- .
